@@ -168,6 +168,10 @@ def gen_trial(meta, rng, nthreads, maxops=7, tiny=False):
                 ops.insert(rng.randint(0, len(ops)), opx)
                 shared_m[what] = False
     post = []
+    # the library's stream_tracer on one shared stream, installed before the threads start and removed after they joined
+    traced = rng.random() < 0.2
+    if traced:
+        pre.append(('tr', 900, 1))
     for e in leftovers_exp + longlived:
         post.append(('qexp', e))
     if shared_m:
@@ -191,6 +195,8 @@ def gen_trial(meta, rng, nthreads, maxops=7, tiny=False):
     for e in longlived:
         post.append(('rmexp', e))
     post += [('rmobj', 1), ('rmobj', 2), ('rmseq', 3), ('rmseq', 4)]
+    if traced:
+        post.append(('rmtr', 900))
     t.pre, t.threads, t.post = pre, threads, post
     return t
 
